@@ -27,7 +27,7 @@ def run_property(prop, tier, root=None, quiet=False, write=True,
   report = core.Report(prop, tier, repo)
   mod.run(report, repo)
   from sa import lib  # pylint: disable=g-import-not-at-top
-  lib.check_no_dead_code(report, repo, prop + '-DEAD')
+  report.guard(lib.check_no_dead_code, report, repo, prop + '-DEAD')
   if not write:
     return None, report
   if tier == 'thorough':
